@@ -34,7 +34,8 @@ Inductive step :=
 | SParent
 | SChild (t : ntest) (ps : list pred)
 | SDesc (t : ntest) (ps : list pred)      (* '//' followed by a child-axis test *)
-| SAttr (a : option bytes).               (* @a, @* *)
+| SAttr (a : option bytes)                (* @a, @* *)
+| SNone.                                  (* a number literal used as a path: selects nothing *)
 
 (* ---- evaluation ---------------------------------------------------------------------------- *)
 Definition test_ok (t : ntest) (n : tree) : bool :=
@@ -97,8 +98,11 @@ Definition eval_step (root : tree) (s : step) (ctx : path) : list path :=
           if is_attr n then []
           else map fst (apply_preds ps (filter (fun c => negb (is_attr (snd c)) && test_ok t (snd c)) (kids_of ctx n)))
       | SDesc t ps =>
+          (* antchfx compiles  a//b  into one descendant query WITH the context node itself
+             (descendantQuery{Self: true}): the engine instance follows the engine *)
           if is_attr n then []
-          else map fst (apply_preds ps (filter (fun c => test_ok t (snd c)) (descendants ctx n)))
+          else map fst (apply_preds ps (filter (fun c => test_ok t (snd c)) ((ctx, n) :: descendants ctx n)))
+      | SNone => []
       | SAttr a =>
           map fst (filter (fun c => is_attr (snd c) &&
                                     match a with Some nm => bytes_eqb nm (t_data (snd c)) | None => true end)
@@ -133,8 +137,9 @@ Fixpoint take_until (q : byte) (s : bytes) : option (bytes * bytes) :=
               else match take_until q r with Some (a, t) => Some (b :: a, t) | None => None end
   end.
 
+(* positions beyond any tree size are all the same: capped so that the unary number stays small *)
 Definition num_of (s : bytes) : nat :=
-  fold_left (fun acc b => acc * 10 + (N.to_nat (Byte.to_N b) - 48)) s 0.
+  N.to_nat (N.min 1000000 (fold_left (fun acc b => N.min 1000000 (acc * 10 + (Byte.to_N b - 48))) s 0%N)).
 
 Fixpoint lex (fuel : nat) (s : bytes) : option (list tok) :=
   match fuel with
@@ -242,6 +247,7 @@ Definition parse_xpath (s : bytes) : option (list step) :=
       match ts with
       | [] => None
       | [KSlash] => Some []
+      | [KNum _] => Some [SNone]
       | KSlash :: r => parse_steps fuel false r
       | KDSlash :: r => parse_steps fuel true r
       | _ => parse_steps fuel false ts
